@@ -164,7 +164,24 @@ def gen_venv(rng):
         srcabs = "@BASE@/ext/src%d" % i if where == "external" else "@BASE@/ws/plugins_src%d" % i
         fx = "edit_fx%d" % i
         files["%s/%s/__init__.py" % (src, modname)] = ""
-        files["%s/%s/plugin.py" % (src, modname)] = FX.format(fx)
+        # the entry module may pull further modules in, over one or two hops (star import / pytest_plugins)
+        chain = rng.choice([0, 0, 1, 2, 2])
+        head = ""
+        hops = []
+        for h in range(chain):
+            this = "plugin" if h == 0 else "level%d" % h
+            nxt = "level%d" % (h + 1)
+            stmt = rng.choice(["from .%s import *\n" % nxt, 'pytest_plugins = ["%s.%s"]\n' % (modname, nxt)])
+            hops.append((this, nxt, stmt))
+        for (this, nxt, stmt) in hops:
+            if this == "plugin":
+                head = stmt
+            else:
+                files["%s/%s/%s.py" % (src, modname, this)] = stmt + FX.format("%s_%s" % (fx, this))
+        if hops:
+            last = hops[-1][1]
+            files["%s/%s/%s.py" % (src, modname, last)] = FX.format("%s_%s" % (fx, last))
+        files["%s/%s/plugin.py" % (src, modname)] = head + FX.format(fx)
         meta = sp + "/%s-0.1.dist-info" % pkg
         dj = rng.choice(['{"url": "file:///x", "dir_info": {"editable": true}}', '{"dir_info": {"editable": false}, "url": "u"}',
                          '{"url": "file:///x"}', '{"url": ', '{"dir_info": {"editable": true}, "url": "file:///y"}'])
@@ -176,7 +193,11 @@ def gen_venv(rng):
         editable = '"editable": true' in dj and not dj.endswith(": ")
         matched = pth != "unrelated.pth" and not (pth.startswith("__editable__.%s-0.1" % pkg) and pkg != norm and False)
         found = editable and pth != "unrelated.pth"
-        expect.append((fx, ("third" if where == "external" else "plugin") if found else "absent"))
+        klass = ("third" if where == "external" else "plugin") if found else "absent"
+        expect.append((fx, klass))
+        for (this, nxt, stmt) in hops:
+            # everything the entry module pulls in, however many hops away, is plugin code too
+            expect.append(("%s_%s" % (fx, nxt), klass))
     return files, expect, v
 
 
